@@ -419,8 +419,9 @@ func TestC08Crash(t *testing.T) {
 				// Known finding (open): a SIGKILL that arrives while write(2) is copying an event that
 				// straddles a page-cache page boundary leaves the first part of that (unacknowledged)
 				// event at the very end of the newest file, cut exactly at the 4096-byte boundary.
+				// The cut may fall inside the frame's 11-byte header ("partial frame header") or behind it ("cut short").
 				// Anything else (a tear elsewhere, not page aligned, corrupted bytes) is a violation.
-				if i == len(files)-1 && strings.Contains(perr.Error(), "cut short") && len(b)%4096 == 0 && stats.Known(sigTornTail) {
+				if i == len(files)-1 && (strings.Contains(perr.Error(), "cut short") || strings.Contains(perr.Error(), "partial frame header")) && len(b)%4096 == 0 && stats.Known(sigTornTail) {
 					tornKnown = true
 				} else {
 					t.Fatalf("VIOLATION C08: after SIGKILL file %s holds a torn event: %v\ncase: %s kill=%dus size=%d", names[i], perr, c, killUs, len(b))
